@@ -116,7 +116,7 @@ def _check(case, cfg, files_raw, paths, d, res, ctx) -> None:  # noqa: ANN001
         return
     st = t.symbol_table.get_sym_table()
     loaded = cfg["mode"] == "load"
-    min_ts = t.min_ts
+    min_ts = t.min_ts.item() if hasattr(t.min_ts, 'item') else t.min_ts   # plain Python number (numpy scalars wrap)
     exp_min = min(e.ts for m in models.values() for e in m)
     if loaded and min_ts != exp_min:
         res.bad("shift-constant", f"min_ts={min_ts} but earliest complete event of all ranks starts at {exp_min}")
